@@ -3,30 +3,22 @@ import ast, sys
 from sa.util import *
 from sa import atoms, sem
 M = "textx/model.py"
+from sa.rules import resolver as RS
 def _resolver_loop(root):
-    fn = find(load(root, M), "ReferenceResolver.resolve_one_step")
-    loop = next((n for n in fn.body if isinstance(n, ast.For) and "current_crossrefs" in ast.unparse(n.iter)), None)
-    if loop is None: raise AnalysisError("resolver loop not found")
-    return fn, loop
-def _effects(row):
-    eff = {"requeue": 0, "count": 0, "store": 0, "delayed": 0}
-    for e in row.effects:
-        u = ast.unparse(e)
-        if isinstance(e, ast.Expr) and isinstance(e.value, ast.Call):
-            c = e.value; recv = ast.unparse(c.func.value) if isinstance(c.func, ast.Attribute) else ""
-            if callee_name(c) == "append" and recv == "new_crossrefs": eff["requeue"] += 1
-            elif callee_name(c) == "append" and recv.endswith("delayed_crossrefs"): eff["delayed"] += 1
-            elif callee_name(c) in ("append", "insert", "extend") and recv == "attr_value": eff["store"] += 1
-            elif callee_name(c) == "setattr" and "attr.name" in u: eff["store"] += 1
-        if isinstance(e, ast.AugAssign) and "count" in ast.unparse(e.target): eff["count"] += 1
-    return eff
+    R = RS.roles(root)
+    return R.fn, R.loop
+def _effects(row, R=None):
+    return RS.effects(row, R)
 def r_C09(root):
-    fn, loop = _resolver_loop(root); out = []
+    R = RS.roles(root); fn, loop = R.fn, R.loop; out = []
+    W = "ReferenceResolver.resolve_one_step"
     names, rows = atoms.table(loop.body)
     inst = 0
     sigs = set()
+    if R.requeue is None: out.append(Finding("C09", "C09.a", M, W, "self.parser._crossrefs = ...", "pending list is not replaced by the re-queued references"))
+    if R.count is None: raise AnalysisError("resolve_one_step does not return (count, delayed)")
     for r in rows:
-        e = _effects(r); kind = r.exit_kind
+        e = RS.effects(r, R); kind = r.exit_kind
         sig = (kind if kind == "raise" else "", e["requeue"], e["count"], e["store"], e["delayed"])
         if sig in sigs: continue
         sigs.add(sig); inst += 1
@@ -35,39 +27,38 @@ def r_C09(root):
         if n_out != 1: bad = "cross-reference is %s" % ("lost (neither re-queued, stored nor failing)" if n_out == 0 else "handled twice (re-queued and stored/counted)")
         elif (e["count"] > 0) != (e["store"] > 0): bad = "count and store disagree"
         elif e["delayed"] and not e["requeue"]: bad = "delayed but not re-queued"
-        if bad: out.append(Finding("C09", "C09.a", M, "ReferenceResolver.resolve_one_step", "path " + str(sorted(k for k, v in r.val.items() if v))[:200], bad))
-    # replacement of the pending list + return of count
-    tail = [ast.unparse(s) for s in fn.body]
-    if not any(t.replace(" ", "") == "self.parser._crossrefs=new_crossrefs" for t in tail): out.append(Finding("C09", "C09.a", M, "ReferenceResolver.resolve_one_step", "self.parser._crossrefs = ...", "pending list is not replaced by the re-queued references"))
+        ob("C09", "C09.a", M, W, "path class %s" % (sig,), bad is None)
+        if bad: out.append(Finding("C09", "C09.a", M, W, "path " + str(sorted(k for k, v in r.val.items() if v))[:200], bad))
     # b: driver loop
-    drv = find(load(root, M), "parse_tree_to_objgraph")
-    wl = next((n for n in ast.walk(drv) if isinstance(n, ast.While)), None)
-    if wl is None: raise AnalysisError("resolution driver loop not found")
+    drv, wl, rc, uc, ml = RS.driver(root)
     inst += 1
     conj = [ast.unparse(v).replace(" ", "") for v in (wl.test.values if isinstance(wl.test, ast.BoolOp) and isinstance(wl.test.op, ast.And) else [wl.test])]
-    if not ("unresolved_count>0" in conj and "resolved_count>0" in conj): out.append(Finding("C09", "C09.b", M, "parse_tree_to_objgraph", ast.unparse(wl.test), "driver loop lacks the progress condition (termination)"))
+    okb = ("%s>0" % uc) in conj and ("%s>0" % rc) in conj
+    if not okb: out.append(Finding("C09", "C09.b", M, "parse_tree_to_objgraph", ast.unparse(wl.test), "driver loop lacks the progress condition (termination)"))
     resets = [ast.unparse(s).replace(" ", "") for s in wl.body[:3]]
-    if not ("resolved_count=0" in resets and "unresolved_count=0" in resets): out.append(Finding("C09", "C09.b", M, "parse_tree_to_objgraph", "while body", "counters are not reset at the top of each round"))
-    # c: error message iterates the same domain as the counter
+    okr = ("%s=0" % rc) in resets and ("%s=0" % uc) in resets
+    if not okr: out.append(Finding("C09", "C09.b", M, "parse_tree_to_objgraph", "while body", "counters are not reset at the top of each round"))
+    ob("C09", "C09.b", M, "parse_tree_to_objgraph", "while %s" % ast.unparse(wl.test), okb and okr)
+    # c: the failure after a round without progress
     inst += 1
-    count_loop = next(n for n in wl.body if isinstance(n, ast.For))
     after = next_stmt(wl)
-    msg_loops = [n for n in ast.walk(after) if isinstance(n, ast.For) and "delayed_crossrefs" in ast.unparse(n)] if isinstance(after, ast.If) else []
-    if not (isinstance(after, ast.If) and ast.unparse(after.test).replace(" ", "") == "unresolved_count>0" and any(isinstance(b, ast.Raise) for b in after.body)):
-        out.append(Finding("C09", "C09.c", M, "parse_tree_to_objgraph", ast.unparse(after)[:80], "no failure after a round without progress"))
+    okc = isinstance(after, ast.If) and ast.unparse(after.test).replace(" ", "") == "%s>0" % uc and any(isinstance(b, ast.Raise) for b in ast.walk(after))
+    ob("C09", "C09.c", M, "parse_tree_to_objgraph", "if %s > 0: ... raise" % uc, okc)
+    if not okc:
+        out.append(Finding("C09", "C09.c", M, "parse_tree_to_objgraph", ast.unparse(after)[:80] if after is not None else "", "no failure after a round without progress"))
     else:
-        outer = next((n for n in after.body if isinstance(n, ast.For)), None)
-        if outer is None or ast.unparse(outer.iter) != ast.unparse(count_loop.iter):
-            out.append(Finding("C09", "C09.c", M, "parse_tree_to_objgraph", ast.unparse(outer.iter) if outer else "", "error message iterates %s but the unresolved count iterates %s" % (ast.unparse(outer.iter) if outer else None, ast.unparse(count_loop.iter))))
+        outer = next((n for n in ast.walk(after) if isinstance(n, ast.For)), None)
+        if ml is not None and (outer is None or ast.unparse(outer.iter) != ast.unparse(ml.iter)):
+            out.append(Finding("C09", "C09.c", M, "parse_tree_to_objgraph", ast.unparse(outer.iter) if outer else "", "error message iterates %s but the unresolved count iterates %s" % (ast.unparse(outer.iter) if outer else None, ast.unparse(ml.iter))))
     return inst, out
 def r_C08_C34(root):
-    fn, loop = _resolver_loop(root); out = []; inst = 0
+    R = RS.roles(root); fn, loop = R.fn, R.loop; out = []; inst = 0
     names, rows = atoms.table(loop.body)
-    defer = any(_effects(r)["requeue"] and r.exit_kind != "raise" and not _effects(r)["store"] for r in rows)
-    stores = [c for c in calls(loop) if isinstance(c.func, ast.Attribute) and ast.unparse(c.func.value) == "attr_value" and c.func.attr in ("append", "insert", "extend")]
+    defer = any(RS.effects(r, R)["requeue"] and r.exit_kind != "raise" and not RS.effects(r, R)["store"] for r in rows)
+    stores = [c for c in calls(loop) if isinstance(c.func, ast.Attribute) and ast.unparse(c.func.value) == R.store_list and c.func.attr in ("append", "insert", "extend")]
     inst += len(stores)
     for c in stores:
-        positional = c.func.attr == "insert" and _depends_on(c.args[0], "crossref", loop)
+        positional = c.func.attr == "insert" and _depends_on(c.args[0], R.v_ref, loop)
         if defer and not positional:
             out.append(Finding("C08", "C08.a", M, "ReferenceResolver.resolve_one_step", ast.unparse(c), "list reference stored in resolution order although references can be postponed", witness="refs+=[T]; first reference postponed once"))
     # C34.a / C34.e field roles of RefRulePosition
@@ -151,7 +142,7 @@ def r_C13(root):
         if not ok: out.append(Finding("C13", "C13.b", M, "call_obj_processors", ast.unparse(tgt)[:70], "a processor's replacement value is not stored back"))
     # descent containment-only (C05.a instance)
     for c in rec:
-        if not any("metaattr.cont" in ast.unparse(g) for g, pol in guards(c) if pol): out.append(Finding("C13", "C13.c", M, "call_obj_processors", ast.unparse(c)[:60], "processor walk descends through a non-containment attribute"))
+        if not any(a.replace(" ", "").endswith(".cont") and pol for a, pol in fi_c.atoms_at(c)): out.append(Finding("C13", "C13.c", M, "call_obj_processors", ast.unparse(c)[:60], "processor walk descends through a non-containment attribute"))
     # ordering in the driver
     drv = find(t, "parse_tree_to_objgraph"); inst += 1
     call = next((c for c in calls(drv, own=True) if callee_name(c) == "call_obj_processors"), None)
@@ -182,7 +173,11 @@ def r_C07(root):
         sel = atoms.select(rows, holds)
         if len(sel) != 1: raise AnalysisError("PlainName: %d paths for cardinality %d" % (len(sel), n_))
         row = sel[0]
-        res = [ast.unparse(e.value) for e in row.effects if isinstance(e, ast.Assign) and ast.unparse(e.targets[0]) == "result"]
+        final = next((s for s in reversed(fn.body) if isinstance(s, ast.Return) and isinstance(s.value, ast.Name)), None)
+        resvar = final.value.id if final is not None else "result"
+        res = [ast.unparse(e.value) for e in row.effects if isinstance(e, ast.Assign) and ast.unparse(e.targets[0]) == resvar]
+        if row.exit_kind == "return" and row.exit_node.value is not None and not (isinstance(row.exit_node.value, ast.Name) and row.exit_node.value.id == resvar):
+            res = res + [ast.unparse(row.exit_node.value)]          # early return of the value
         got = "raise" if row.exit_kind == "raise" and "TextXSemanticError" in row.exit_text() else ("one" if res[-1:] and res[-1].endswith("[0]") else "none" if res[-1:] == ["None"] else "?")
         if got != want: out.append(Finding("C07", "C07.a", "textx/scoping/providers.py", "PlainName.__call__", row.exit_text() or (res[-1] if res else ""), "with %s matching object(s) the provider yields %s, documented %s" % (n_ if n_ < 2 else ">=2", got, want)))
     sel = next((c for c in calls(reg) if callee_name(c) == "get_children"), None)
@@ -294,8 +289,11 @@ def r_C28b_C33b_C30bc(root):
     # C28.b: raise sites carry filename+line+col
     SITES = [("get_model_parser.TextXModelParser._parse", "TextXSyntaxError"), ("ReferenceResolver.resolve_one_step", "UNKNOWN_OBJ_ERROR"), ("parse_tree_to_objgraph", "Unresolvable cross references")]
     for q, marker in SITES:
-        fn = find(t, q)
-        rs = [r for r in own_nodes(fn) if isinstance(r, ast.Raise) and r.exc is not None and (marker in ast.unparse(r) or (marker == "Unresolvable cross references" and "error_text" in ast.unparse(r)))]
+        if marker == "Unresolvable cross references":
+            rs = RS.unresolved_raises(root)[2]
+        else:
+            fn = find_i(root, M, q)
+            rs = [r for r in own_nodes(fn) if isinstance(r, ast.Raise) and r.exc is not None and marker in ast.unparse(r)]
         if not rs: raise AnalysisError("raise site not found: %s %s" % (q, marker))
         for r in rs:
             inst += 1
